@@ -562,6 +562,23 @@ class Interp:
         if not self.truthy(self.eval(s.test, f)):
             raise Raised(AssertionError(f"{f.qual}:{s.lineno}"))
 
+    def x_With(self, s, f):
+        """context managers: only objects that model their own protocol (`pyvc_enter` / `pyvc_exit`) are supported"""
+        entered = []
+        for item in s.items:
+            cm = self.eval(item.context_expr, f)
+            if not hasattr(cm, "pyvc_enter"):
+                raise Unsupported(f"with-statement on {type(cm).__name__}")
+            v = cm.pyvc_enter(self)
+            entered.append(cm)
+            if item.optional_vars is not None:
+                self.assign(item.optional_vars, v, f)
+        try:
+            self.exec_block(s.body, f)
+        finally:
+            for cm in reversed(entered):
+                cm.pyvc_exit(self)
+
     def x_Try(self, s, f):
         try:
             self.exec_block(s.body, f)
